@@ -100,7 +100,7 @@ Definition destruct_insert (ids : list name) (i : instr) (e : lenv) : outcome le
   | _ => obind (rt i) (fun t =>
          match flatten_tuple t with
          | Some ts => zip_insert (fun t => Ok (LOther t)) ids ts e
-         | None => Panic
+         | None => zip_insert (fun t => Ok (LOther t)) ids (map (fun _ => TNever) ids) e
          end)
   end.
 
